@@ -17,12 +17,12 @@ def run(tier, seed):
     rng = random.Random(seed * 7919 + 17)
     quick = tier != 'thorough'
     items, asts = [], []
-    for i in range(240 if quick else 1200):
+    for i in range(240 if quick else 600):
         s = rng.randrange(1 << 30)
         ast, src = genprog.gen_end_program(s)
         items.append(('end:%d' % s, src, [rng.choice(['-O0', '-O1', '-O2', '-O3']), '-feof-support']))
         asts.append(ast)
-    g_items, g_asts = c01.gen_items(rng, 100 if quick else 500, c01.FEATURES | {'end'}, extra=())
+    g_items, g_asts = c01.gen_items(rng, 100 if quick else 250, c01.FEATURES | {'end'}, extra=())
     for (n, s, a), ast in zip(g_items, g_asts):
         if '-feof-support' in a:
             items.append((n, s, a))
